@@ -26,7 +26,7 @@ use std::sync::Mutex as StdMutex;
 // Everything of std::sync that is not modelled is std's own item: the simulator's build rewrites
 // `std::sync::` into `dmntk_verif_sync::` throughout the dmntk crates.
 pub use std::sync::{atomic, mpsc};
-pub use std::sync::{Arc, Barrier, BarrierWaitResult, Condvar, LazyLock, LockResult, Once, OnceLock, OnceState, PoisonError, TryLockError, TryLockResult, WaitTimeoutResult, Weak};
+pub use std::sync::{Arc, Barrier, BarrierWaitResult, Condvar, LockResult, PoisonError, TryLockError, TryLockResult, WaitTimeoutResult, Weak};
 
 /// `true` while a shuttle execution is running on this process.
 static SIM_ACTIVE: AtomicBool = AtomicBool::new(false);
@@ -241,6 +241,11 @@ impl<T: ?Sized> RwLock<T> {
   /// Returns `true` when the lock is poisoned.
   pub fn is_poisoned(&self) -> bool {
     self.inner.is_poisoned()
+  }
+
+  /// Clears the poisoned state.
+  pub fn clear_poison(&self) {
+    self.inner.clear_poison()
   }
 
   /// Locks for shared read access.
@@ -710,6 +715,11 @@ impl<T: ?Sized> Mutex<T> {
     self.inner.is_poisoned()
   }
 
+  /// Clears the poisoned state.
+  pub fn clear_poison(&self) {
+    self.inner.clear_poison()
+  }
+
   /// Returns a mutable reference to the data (no locking needed).
   pub fn get_mut(&mut self) -> LockResult<&mut T> {
     self.inner.get_mut()
@@ -1014,4 +1024,222 @@ macro_rules! __dual_local_key {
       }
     };
   };
+}
+
+// ------------------------------------------------------------------------------------------------
+// one-time initialisation: OnceLock, Once, LazyLock
+//
+// std's versions block the OS thread while another thread runs the initialiser. Under the simulator all
+// simulated threads share one OS thread, so an initialiser that passes a scheduling point (it evaluates
+// something) while a second simulated thread asks for the same cell would hang the process. These
+// versions park the second task instead.
+// ------------------------------------------------------------------------------------------------
+
+struct OnceState {
+  running: Option<usize>,
+  parked: Vec<(usize, shuttle::thread::Thread)>,
+}
+
+impl OnceState {
+  const fn new() -> Self {
+    Self { running: None, parked: Vec::new() }
+  }
+}
+
+/// Resets the "running" mark when the initialiser unwinds, and wakes (or defers waking) the waiters.
+struct OnceRunGuard<'a> {
+  state: &'a StdMutex<OnceState>,
+}
+
+impl Drop for OnceRunGuard<'_> {
+  fn drop(&mut self) {
+    let parked: Vec<shuttle::thread::Thread> = {
+      let mut st = self.state.lock().unwrap_or_else(PoisonError::into_inner);
+      st.running = None;
+      std::mem::take(&mut st.parked).into_iter().map(|(_, t)| t).collect()
+    };
+    if std::thread::panicking() {
+      DEFERRED.lock().unwrap_or_else(PoisonError::into_inner).extend(parked);
+    } else {
+      for t in parked {
+        t.unpark();
+      }
+    }
+  }
+}
+
+/// Waits until no other task runs the initialiser; returns with the run mark taken (a guard) or `None`
+/// when `done()` became true meanwhile.
+fn once_enter<'a>(state: &'a StdMutex<OnceState>, done: impl Fn() -> bool) -> Option<OnceRunGuard<'a>> {
+  let task = me();
+  loop {
+    {
+      let mut st = state.lock().unwrap_or_else(PoisonError::into_inner);
+      if done() {
+        return None;
+      }
+      if st.running.is_none() {
+        st.running = Some(task);
+        return Some(OnceRunGuard { state });
+      }
+      if !st.parked.iter().any(|(t, _)| *t == task) {
+        st.parked.push((task, shuttle::thread::current()));
+      }
+    }
+    ST_BLOCKED.fetch_add(1, Ordering::Relaxed);
+    shuttle::thread::park();
+  }
+}
+
+/// A cell written at most once, with the API of `std::sync::OnceLock`.
+pub struct OnceLock<T> {
+  inner: std::sync::OnceLock<T>,
+  state: StdMutex<OnceState>,
+}
+
+impl<T> OnceLock<T> {
+  pub const fn new() -> Self {
+    Self {
+      inner: std::sync::OnceLock::new(),
+      state: StdMutex::new(OnceState::new()),
+    }
+  }
+  pub fn get(&self) -> Option<&T> {
+    self.inner.get()
+  }
+  pub fn get_mut(&mut self) -> Option<&mut T> {
+    self.inner.get_mut()
+  }
+  pub fn set(&self, value: T) -> Result<(), T> {
+    self.inner.set(value)
+  }
+  pub fn into_inner(self) -> Option<T> {
+    self.inner.into_inner()
+  }
+  pub fn take(&mut self) -> Option<T> {
+    self.inner.take()
+  }
+  pub fn get_or_init<F>(&self, f: F) -> &T
+  where
+    F: FnOnce() -> T,
+  {
+    if let Some(v) = self.inner.get() {
+      return v;
+    }
+    if !sim_active() {
+      return self.inner.get_or_init(f);
+    }
+    flush();
+    shuttle::thread::sleep(std::time::Duration::ZERO);
+    if let Some(_guard) = once_enter(&self.state, || self.inner.get().is_some()) {
+      let value = f();
+      let _ = self.inner.set(value);
+    }
+    self.inner.get().expect("initialised")
+  }
+}
+
+impl<T> Default for OnceLock<T> {
+  fn default() -> Self {
+    Self::new()
+  }
+}
+
+impl<T: fmt::Debug> fmt::Debug for OnceLock<T> {
+  fn fmt(&self, f: &mut fmt::Formatter<'_>) -> fmt::Result {
+    self.inner.fmt(f)
+  }
+}
+
+impl<T: Clone> Clone for OnceLock<T> {
+  fn clone(&self) -> Self {
+    let cell = Self::new();
+    if let Some(v) = self.get() {
+      let _ = cell.set(v.clone());
+    }
+    cell
+  }
+}
+
+impl<T> From<T> for OnceLock<T> {
+  fn from(value: T) -> Self {
+    let cell = Self::new();
+    let _ = cell.set(value);
+    cell
+  }
+}
+
+/// One-time global initialisation with the API of `std::sync::Once` (the commonly used part).
+pub struct Once {
+  done: AtomicBool,
+  inner: std::sync::Once,
+  state: StdMutex<OnceState>,
+}
+
+impl Once {
+  pub const fn new() -> Self {
+    Self {
+      done: AtomicBool::new(false),
+      inner: std::sync::Once::new(),
+      state: StdMutex::new(OnceState::new()),
+    }
+  }
+  pub fn is_completed(&self) -> bool {
+    self.done.load(Ordering::SeqCst) || self.inner.is_completed()
+  }
+  pub fn call_once<F: FnOnce()>(&self, f: F) {
+    if self.is_completed() {
+      return;
+    }
+    if !sim_active() {
+      self.inner.call_once(f);
+      return;
+    }
+    flush();
+    shuttle::thread::sleep(std::time::Duration::ZERO);
+    if let Some(_guard) = once_enter(&self.state, || self.is_completed()) {
+      f();
+      self.done.store(true, Ordering::SeqCst);
+    }
+  }
+}
+
+impl fmt::Debug for Once {
+  fn fmt(&self, f: &mut fmt::Formatter<'_>) -> fmt::Result {
+    f.debug_struct("Once").field("completed", &self.is_completed()).finish()
+  }
+}
+
+/// A value initialised on first access, with the API of `std::sync::LazyLock`.
+pub struct LazyLock<T, F = fn() -> T> {
+  cell: OnceLock<T>,
+  init: StdMutex<Option<F>>,
+}
+
+impl<T, F: FnOnce() -> T> LazyLock<T, F> {
+  pub const fn new(f: F) -> Self {
+    Self {
+      cell: OnceLock::new(),
+      init: StdMutex::new(Some(f)),
+    }
+  }
+  pub fn force(this: &Self) -> &T {
+    this.cell.get_or_init(|| {
+      let f = this.init.lock().unwrap_or_else(PoisonError::into_inner).take().expect("LazyLock instance has previously been poisoned");
+      f()
+    })
+  }
+}
+
+impl<T, F: FnOnce() -> T> Deref for LazyLock<T, F> {
+  type Target = T;
+  fn deref(&self) -> &T {
+    LazyLock::force(self)
+  }
+}
+
+impl<T: fmt::Debug, F> fmt::Debug for LazyLock<T, F> {
+  fn fmt(&self, f: &mut fmt::Formatter<'_>) -> fmt::Result {
+    f.debug_struct("LazyLock").field("cell", &self.cell).finish()
+  }
 }
